@@ -450,11 +450,15 @@ fn cmd_run(id: &str, tier: &str) -> i32 {
     }
     let evidence_path = format!("{}/{}.json", std::env::var("VERIF_EVIDENCE_DIR").unwrap_or_else(|_| "/verif/evidence".into()), id);
     write_evidence(check.as_ref(), tier, seed, &out, reported, &known_hits, &evidence_path);
-    if harness_error {
+    if harness_error && reported == 0 {
         println!("# verdict: HARNESS ERROR");
         return 2;
     }
     if reported > 0 {
+        if harness_error {
+            // every reported file reproduced in a fresh process; classes that did not are left out
+            println!("# note: some violation classes seen during exploration could not be reproduced and are not reported");
+        }
         println!("# verdict: VIOLATION ({reported} class(es))");
         1
     } else {
